@@ -163,25 +163,38 @@ def real_digests(seed, tier):
 
 
 def gen_real_sign(tier, seed):
-    return [{"d": str(d), "z": str(z)} for d in real_secrets(seed, tier) for z in real_digests(seed, tier)]
+    # one case per secret: ONE PrivateKey object signs every digest (the first digest once more at the end), so
+    # state kept on the key object between calls is exposed
+    zs = real_digests(seed, tier)
+    return [{"d": str(d), "zs": [str(z) for z in zs + zs[:1]]} for d in real_secrets(seed, tier)]
 
 
 def run_real_sign(case):
     from buidl import pecc
 
     res = Res()
+    priv = pecc.PrivateKey(int(case["d"]))
+    for j, zz in enumerate(case["zs"]):
+        res.merge(_real_sign_one(pecc, priv, {"d": case["d"], "z": zz, "zs": case["zs"][: j + 1]}))
+    return res
+
+
+def _real_sign_one(pecc, priv, case):
+    res = Res()
     d, z = int(case["d"]), int(case["z"])
     c = ec.SECP
-    vc = {"engine": "real-sign", "case": case}
+    vc = {"engine": "real-sign", "case": {"d": case["d"], "zs": case["zs"]}}
     zcls = "z=n" if z == N else ("z>n" if z > N else "z<n")
     exp = c.ecdsa_sign(d, z)
-    priv = pecc.PrivateKey(d)
     sig = attempt(priv.sign, z)
     got = None if isinstance(sig, Rejected) else (sig.r, sig.s)
     if got != exp:
+        fresh = attempt(pecc.PrivateKey(d).sign, z)
+        if not isinstance(fresh, Rejected) and (fresh.r, fresh.s) == exp:
+            zcls += "/only-on-reused-key-object"
         res.violation(f"C01/real-sign/not-rfc6979/{zcls}", vc, got, exp, "sign(z) is not the RFC 6979 deterministic low-S signature")
         return res
-    res.ok("sign==rfc6979", nontrivial=("sign", case["d"], case["z"]), sample=case)
+    res.ok("sign==rfc6979", nontrivial=("sign", case["d"], case["z"], len(case["zs"])), sample={"d": case["d"], "z": case["z"]})
     if not accepted(attempt(priv.point.verify, z, sig)):
         res.violation("C01/real-sign/own-signature-rejected", vc, False, True, "verify rejects sign's output")
     else:
@@ -260,14 +273,15 @@ def gen_real_forge(tier, seed):
     digests = [0, N, 2**256 - 1] + [filler_int(seed, "c01fdigest", i, 0, 2**256 - 1) for i in range(1 if tier == "quick" else 3)]
     names = list(forge_catalogue(None, ec.SECP))
     cases = []
+    G = 6
     for d in secrets:
         for z in digests:
-            cases.append({"d": str(d), "z": str(z), "devs": []})
-            for nm in names:
-                cases.append({"d": str(d), "z": str(z), "devs": [nm]})
+            # every case verifies the valid tuple first and then its deviations on the SAME point object
+            lists = [[nm] for nm in names]
             if tier == "thorough" and d in secrets[:2] and z in digests[:2]:
-                for a, b in itertools.combinations(names, 2):
-                    cases.append({"d": str(d), "z": str(z), "devs": [a, b]})
+                lists += [[a, b] for a, b in itertools.combinations(names, 2)]
+            for i in range(0, len(lists), G):
+                cases.append({"d": str(d), "z": str(z), "group": [[]] + lists[i : i + G]})
     # crafted tuples no vector contains
     for j in range(3 if tier == "quick" else 12):
         cases.append({"craft": "xR>=n", "j": j})
@@ -332,22 +346,27 @@ def run_real_forge(case):
     d, z = int(case["d"]), int(case["z"])
     r, s = c.ecdsa_sign(d, z)
     other = c.mulg((d * 7 + 11) % N or 5)
-    tup = (c.mulg(d), z, r, s)
     cat = forge_catalogue(other, c)
-    for nm in case["devs"]:
-        tup = cat[nm](*tup)
-    Q, zz, rr, ss = tup
-    if not (0 <= zz < 2**256):
-        res.skip("digest outside [0, 2^256)")
-        return res
-    exp = c.ecdsa_verify(Q, zz, rr, ss)
-    got = accepted(attempt(pecc.S256Point(Q[0], Q[1]).verify, zz, pecc.Signature(rr, ss)))
-    devs = "+".join(case["devs"]) or "valid"
-    if got != exp:
-        kind = "accepts-forgery" if got else "rejects-valid"
-        res.violation(f"C01/real-forge/{kind}/{devs}", vc, got, exp, "verify disagrees with the ECDSA predicate on the real curve")
-    else:
-        res.ok(f"verify==ref({exp})", nontrivial=(case["d"], case["z"], devs) if case["devs"] else None, sample=case if len(case["devs"]) == 1 else None)
+    P0 = c.mulg(d)
+    shared = pecc.S256Point(P0[0], P0[1])
+    for devl in case["group"]:
+        tup = (P0, z, r, s)
+        for nm in devl:
+            tup = cat[nm](*tup)
+        Q, zz, rr, ss = tup
+        if not (0 <= zz < 2**256):
+            res.skip("digest outside [0, 2^256)")
+            continue
+        exp = c.ecdsa_verify(Q, zz, rr, ss)
+        point = shared if Q == P0 else pecc.S256Point(Q[0], Q[1])
+        got = accepted(attempt(point.verify, zz, pecc.Signature(rr, ss)))
+        devs = "+".join(devl) or "valid"
+        vc = {"engine": "real-forge", "case": dict(case, group=[[], devl] if devl else [[]])}
+        if got != exp:
+            kind = "accepts-forgery" if got else "rejects-valid"
+            res.violation(f"C01/real-forge/{kind}/{devs}", vc, got, exp, "verify disagrees with the ECDSA predicate on the real curve (valid tuple verified first on the same point object)")
+        else:
+            res.ok(f"verify==ref({exp})", nontrivial=(case["d"], case["z"], devs) if devl else None, sample={"d": case["d"], "z": case["z"], "devs": devl} if len(devl) == 1 else None)
     return res
 
 
